@@ -151,7 +151,7 @@ func replayConnCase(kr *keyring, c *connCase, parked, byref bool) (diff string) 
 		h.Ech.Ct.Pt.Eoe = innerEoe
 		return h
 	}
-	keyNames := map[string][]string{"K1": {"K1"}, "K3K1": {"K3", "K1"}, "K2K1": {"K2", "K1"}, "K2K6K3K1": {"K2", "K6", "K3", "K1"}, "KXK2K1": {"KX", "K2", "K1"}}[c.Keys]
+	keyNames := map[string][]string{"K1": {"K1"}, "K3K1": {"K3", "K1"}, "K2K1": {"K2", "K1"}, "K2K6K3K1": {"K2", "K6", "K3", "K1"}, "KXK2K1": {"KX", "K2", "K1"}, "K4K1": {"K4", "K1"}, "K2K4K1": {"K2", "K4", "K1"}}[c.Keys]
 	first := aEnc{To: "k1", Id: "e1"}
 	var ch1 *aHello
 	switch c.First {
@@ -166,7 +166,7 @@ func replayConnCase(kr *keyring, c *connCase, parked, byref bool) (diff string) 
 	tr := &chunkConn{}
 	tr.cond = sync.NewCond(&tr.mu)
 	tr.push(ch1rec)
-	conn, err := ech.NewConn(context.Background(), tr, ech.WithKeys(kr.serverKeys(keyNames)))
+	conn, err := ech.NewConn(context.Background(), tr, keyOptions(kr.serverKeys(keyNames))...)
 	if err != nil {
 		return "NewConn: " + err.Error()
 	}
